@@ -164,6 +164,8 @@ def run(tier, seed, replay=None):
         cstats = {}
         clause_part(rep, tier, e2e.cfgs(tier)[0], [p for p in progs if p[1]["kind"] == "plan"][: (400 if tier == "quick" else 4000)], cstats)
         feat.update(cstats)
+        from . import corpus
+        feat["corpus"] = corpus.run(rep, PROP, tier)
     except vlib.BuildFailure as e:
         rep.violation("the solver does not build in a supported configuration", {"kind": "build", "theorem_or_correspondence": "cmake build of /repo", "log": str(e)}, no_input=True)
     rep.cov.update({
